@@ -3,6 +3,7 @@ satisfies them."""
 from __future__ import annotations
 
 import ast
+import re
 
 from .. import facts, fitrules
 from ..astutil import (Opaque, call_name, calls_in, const_str, dotted,
@@ -387,8 +388,23 @@ def r5_check_order(ctx):
         kind = "required" if any("steps_required" in t for t in txt) else (
             "optional" if any("steps_optional" in t for t in txt) else None)
         kinds.add(kind)
-        cmp_ok = any((f"> {cix}" in t) and ("index(" in t or "rio" in t
-                                            or "rix" in t) for t in txt)
+        def from_index(t):
+            if "index(" in t:
+                return True
+            # a list local filled with `.index(...)` values
+            for nm in re.findall(r"[A-Za-z_][A-Za-z_0-9]*", t):
+                for n_ in walk_no_nested(fn, False):
+                    if isinstance(n_, ast.Call) and isinstance(
+                            n_.func, ast.Attribute) and n_.func.attr == \
+                            "append" and norm(n_.func.value) == nm and \
+                            n_.args and "index(" in norm(n_.args[0]):
+                        return True
+                    if isinstance(n_, ast.Assign) and norm(
+                            n_.targets[0]) == nm and "index(" in norm(
+                                n_.value):
+                        return True
+            return False
+        cmp_ok = any((f"> {cix}" in t) and from_index(t) for t in txt)
         ctx.check(cmp_ok, r, f"{kind}: raise when a precursor's index > "
                   f"{cix}",
                   f"check_order's {kind} test is not 'position of the "
@@ -412,6 +428,12 @@ def r5_check_order(ctx):
         if isinstance(n, ast.Call) and isinstance(n.func, ast.Attribute) and \
                 n.func.attr == "append" and n.args and "index(" in norm(
                     n.args[0]):
+            inner = getattr(n, "_parent", None)
+            while inner is not None and not isinstance(inner, ast.For):
+                inner = getattr(inner, "_parent", None)
+            if inner is not None and inner is not lp and \
+                    "steps_required" in norm(inner.iter):
+                continue      # required steps are always present
             conds = conditions_at(n, stop=lp)
             ctx.check(any(a.pol and a.text.endswith(f" in {lst}")
                           for a in conds), n,
@@ -549,8 +571,9 @@ def r6_fixpoint(ctx):
     stop = False
     if isinstance(rep, ast.While) and norm(rep.test) == moved:
         stop = True
+    Rq = Resolver(fn, keep={moved})
     for st in rep.body[pos_pass[0] + 1 if pos_pass else 0:]:
-        if isinstance(st, ast.If) and norm(st.test) in (
+        if isinstance(st, ast.If) and Rq.text(st.test) in (
                 f"not {moved}",) and any(isinstance(x, ast.Break)
                                          for x in st.body):
             stop = True
